@@ -127,6 +127,13 @@ theorem C02_getOrInsert_adds (env : Env) (f : Nat) (s : St) (key : Key) (v : Val
     have := St.insertKeepFirst_other s key k' { val := v, dyn := insertedEntryDynamic (env.types key.ty).hot env.hasReloader, rid := ReloadId_NEVER, flag := false, addr := s.next } hk
     simpa [St.lookup] using this
 
+/-- `get_or_insert` never touches another key (present or absent). -/
+theorem C02_getOrInsert_adds_other (env : Env) (f : Nat) (s : St) (key : Key) (v : Val) (k' : Key) (hk : k' ≠ key) :
+    (step env f s (.getOrInsert key v)).1.lookup k' = s.lookup k' := by
+  cases h : s.lookup key with
+  | some c => rw [(C02_getOrInsert_keeps env f s key v c h).1]; simp
+  | none => exact (C02_getOrInsert_adds env f s key v h).2 k' hk
+
 /-- `get_cached`, `contains` change nothing at all. -/
 theorem C02_lookups_readonly (env : Env) (f : Nat) (s : St) (key : Key) :
     (step env f s (.getCached key)).1 = s ∧ (step env f s (.contains key)).1 = s := ⟨rfl, rfl⟩
@@ -205,6 +212,130 @@ theorem C02_load_caches (env : Env) (f : Nat) (s : St) (key : Key) (v : Val)
     | err e => simp [cont, eval, Prog.ret'] at hok
     | panicked => simp [cont] at hok
     | diverged => simp [cont] at hok
+
+/-! ## Histories of front-end operations (every length, every loader, every source)
+
+The single-step facts above lifted to arbitrary operation sequences of `World.step`: an entry lives, at the same
+address and with the same value, until an operation names it for deletion; and only `load`, `load_owned` (through
+the assets its loader requests) and `get_or_insert` can ever make a key appear. -/
+
+/-- the operations that delete key `k` -/
+def deletes (k : Key) : Op → Bool
+  | .remove k' => decide (k' = k)
+  | .take k' => decide (k' = k)
+  | .clear => true
+  | _ => false
+
+/-- the operations that may add entries -/
+def mayAdd : Op → Bool
+  | .load _ => true
+  | .loadOwned _ => true
+  | .getOrInsert _ _ => true
+  | _ => false
+
+/-- a history of API operations; the environment (source contents, loaders) may differ at every step -/
+def runOps (f : Nat) : St → List (Env × Op) → St
+  | s, [] => s
+  | s, (env, op) :: ops => runOps f (step env f s op).1 ops
+
+theorem evalTop_lookup (env : Env) (f : Nat) (s : St) (p : Prog) (k : Key) (c : Cell) (h : s.lookup k = some c) :
+    (evalTop env f s p).1.lookup k = some c := by
+  have := eval_mono env f { s with recs := [] } p k c h
+  exact this
+
+/-- One step keeps every entry it does not name for deletion: same cell (address, value, flags). -/
+theorem C02_step_keeps (env : Env) (f : Nat) (s : St) (op : Op) (k : Key) (c : Cell)
+    (hd : deletes k op = false) (h : s.lookup k = some c) : (step env f s op).1.lookup k = some c := by
+  cases op with
+  | load key =>
+    have h1 : (step env f s (.load key)).1 = (evalTop env f s (.load key Prog.ret')).1 := by
+      simp only [step]
+      generalize evalTop env f s _ = r
+      obtain ⟨s1, o⟩ := r
+      cases o <;> rfl
+    rw [h1]; exact evalTop_lookup env f s _ k c h
+  | loadOwned key => exact evalTop_lookup env f s _ k c h
+  | getCached key => exact h
+  | contains key => exact h
+  | getOrInsert key v =>
+    by_cases hk : k = key
+    · subst hk
+      have := (C02_getOrInsert_keeps env f s k v c h).1
+      rw [this]; simpa using h
+    · rw [(C02_getOrInsert_adds_other env f s key v k hk)]; exact h
+  | remove key =>
+    have hk : k ≠ key := by intro e; subst e; simp [deletes] at hd
+    rw [((C02_remove_take_exact env f s key).2.2.1 k hk).1]; exact h
+  | take key =>
+    have hk : k ≠ key := by intro e; subst e; simp [deletes] at hd
+    rw [((C02_remove_take_exact env f s key).2.2.1 k hk).2]; exact h
+  | clear => simp [deletes] at hd
+
+/-- **An entry lives until it is deleted**: over every history in which no operation removes, takes or clears `k`,
+the entry stored under `k` is still there, at the same address, with the same value. -/
+theorem C02_history_keeps (f : Nat) (ops : List (Env × Op)) (s : St) (k : Key) (c : Cell)
+    (hd : ∀ eo ∈ ops, deletes k eo.2 = false) (h : s.lookup k = some c) : (runOps f s ops).lookup k = some c := by
+  induction ops generalizing s with
+  | nil => exact h
+  | cons eo ops ih =>
+    obtain ⟨env, op⟩ := eo
+    exact ih _ (fun e he => hd e (List.mem_cons_of_mem _ he)) (C02_step_keeps env f s op k c (hd _ (List.mem_cons_self ..)) h)
+
+/-- Look-ups and deletions add nothing: whatever is cached after such a step was cached before, unchanged. -/
+theorem C02_step_adds_only_by_adders (env : Env) (f : Nat) (s : St) (op : Op) (k : Key) (c : Cell)
+    (ha : mayAdd op = false) (h : (step env f s op).1.lookup k = some c) : s.lookup k = some c := by
+  cases op with
+  | load key => simp [mayAdd] at ha
+  | loadOwned key => simp [mayAdd] at ha
+  | getOrInsert key v => simp [mayAdd] at ha
+  | getCached key => exact h
+  | contains key => exact h
+  | remove key =>
+    by_cases hk : k = key
+    · subst hk; rw [(C02_remove_take_exact env f s k).1] at h; cases h
+    · rw [((C02_remove_take_exact env f s key).2.2.1 k hk).1] at h; exact h
+  | take key =>
+    by_cases hk : k = key
+    · subst hk; rw [(C02_remove_take_exact env f s k).2.1] at h; cases h
+    · rw [((C02_remove_take_exact env f s key).2.2.1 k hk).2] at h; exact h
+  | clear => rw [C02_clear_exact] at h; cases h
+
+/-- **Only loads and `get_or_insert` add**: over every history made of `get_cached`, `contains`, `remove`, `take`
+and `clear`, every entry present at the end was present at the start, unchanged. -/
+theorem C02_history_adds_only_by_adders (f : Nat) (ops : List (Env × Op)) (s : St) (k : Key) (c : Cell)
+    (ha : ∀ eo ∈ ops, mayAdd eo.2 = false) (h : (runOps f s ops).lookup k = some c) : s.lookup k = some c := by
+  induction ops generalizing s with
+  | nil => exact h
+  | cons eo ops ih =>
+    obtain ⟨env, op⟩ := eo
+    exact C02_step_adds_only_by_adders env f s op k c (ha _ (List.mem_cons_self ..))
+      (ih _ (fun e he => ha e (List.mem_cons_of_mem _ he)) h)
+
+/-- **Keys never interfere**: an operation that names key `key` and is not a load (loads may request other assets)
+leaves every other key exactly as it was — in particular the same id under another type, and another id under the same type. -/
+theorem C02_other_keys_untouched (env : Env) (f : Nat) (s : St) (key k : Key) (v : Val) (hk : k ≠ key) :
+    (step env f s (.getOrInsert key v)).1.lookup k = s.lookup k ∧
+    (step env f s (.getCached key)).1.lookup k = s.lookup k ∧
+    (step env f s (.contains key)).1.lookup k = s.lookup k ∧
+    (step env f s (.remove key)).1.lookup k = s.lookup k ∧
+    (step env f s (.take key)).1.lookup k = s.lookup k :=
+  ⟨C02_getOrInsert_adds_other env f s key v k hk, rfl, rfl,
+   ((C02_remove_take_exact env f s key).2.2.1 k hk).1, ((C02_remove_take_exact env f s key).2.2.1 k hk).2⟩
+
+/-- After a deletion the key is absent, whatever came before (so `remove`; `contains` answers false for every history). -/
+theorem C02_history_then_delete (f : Nat) (ops : List (Env × Op)) (s : St) (env : Env) (k : Key) :
+    (runOps f s (ops ++ [(env, .remove k)])).lookup k = none ∧
+    (runOps f s (ops ++ [(env, .take k)])).lookup k = none ∧
+    (runOps f s (ops ++ [(env, .clear)])).lookup k = none := by
+  have app : ∀ (ops : List (Env × Op)) (s : St) (eo : Env × Op), runOps f s (ops ++ [eo]) = (step eo.1 f (runOps f s ops) eo.2).1 := by
+    intro ops
+    induction ops with
+    | nil => intro s eo; rfl
+    | cons a ops ih => intro s eo; exact ih _ eo
+  refine ⟨?_, ?_, ?_⟩
+  · rw [app]; exact (C02_remove_take_exact env f _ k).1
+  · rw [app]; exact (C02_remove_take_exact env f _ k).2.1
+  · rw [app]; exact C02_clear_exact env f _ k
 
 /-! Non-vacuity -/
 example : (SMap.run (fun k => k.id.length) ⟨4, fun _ => []⟩
